@@ -835,6 +835,11 @@ theorem C06_src_leaves : MatchSrc.containsM = refContains ∧ MatchSrc.sameMembe
 mismatch, `except BaseException`, the matcher guard, "matched" = falsy mismatch, the propagate rule) -/
 theorem C06_src_exception : MatchSrc.matchesException = refMatchesException ∧ MatchSrc.raisesM = refRaises := by decide
 
+/-- `Warnings.match`: records inside `catch_warnings(record=True)`, installs the action "always" before the call (every warning
+the callable emits reaches the list, repeats included; the caller's filters are restored by the block), hands the recorded list to
+the matcher, or mismatches iff the list is empty; `IsDeprecated` = a list of exactly one `DeprecationWarning` -/
+theorem C06_src_warnings : MatchSrc.warningsM = refWarnings := by decide
+
 end SourceTies
 
 /-! ## non-vacuity -/
